@@ -90,7 +90,11 @@ def ackFold (st : RibSt) (okIds : List Nat) : RibSt :=
   okIds.foldl (fun st id =>
     match st.ops.get? id with
     | none => st.monfail "c01" s!"acknowledged id {id} was never submitted"
-    | some op => { st with spec := Spec.applyAck st.spec (.prog op) }) st
+    | some op =>
+      -- REPLACE wholly replaces an *existing* entry: it may be acknowledged only for an installed key
+      let st := if op.ty == .replace && !(Map.has st.spec (op.ni, op.key))
+        then st.monfail "c01" s!"REPLACE {id} acknowledged for a key that is not installed" else st
+      { st with spec := Spec.applyAck st.spec (.prog op) }) st
 
 def handleAdd (st : RibSt) (op : Op) (oks fails : List Nat) (fatal : Bool) : RibSt :=
   let st := { st with ops := st.ops.insert op.id op }
@@ -214,6 +218,9 @@ def handleObsPend (st : RibSt) (ids : List Nat) : RibSt :=
       | .ok => st.monfail "c02" s!"held operation {id} is resolvable but unanswered"
       | .err => st) st  -- not resolvable: answered FAILED by the next cascade
   let st := if ids.length > 0 then st.covr "pend.nonempty" else st
+  -- C02 monitor: with forward references disallowed nothing is ever held
+  let st := if !st.model.fwd && ids.length > 0
+    then st.monfail "c02" s!"operations {showIds ids} are held although forward references are disallowed" else st
   if st.diverged then st else
   let mIds := st.model.pend.map (·.1)
   if permEq mIds ids then st else st.diff "pend" s!"model={showIds mIds} impl={showIds ids}"
